@@ -2,6 +2,7 @@ package driver
 
 import (
 	"fmt"
+	"os"
 	"io"
 	"runtime/debug"
 	"sort"
@@ -26,6 +27,7 @@ type Job struct {
 	MaxSteps    int
 	Limit       time.Duration
 	Bounds      string // human-readable bound description
+	BudgetViolation bool // an exhausted instruction budget is a violation (loop without progress), not inconclusive
 }
 
 func (j *Job) ID() string {
@@ -88,7 +90,7 @@ func RunJob(l *Loaded, job *Job, tweak func(*sym.Config)) (res *JobResult) {
 		res.Incon = append(res.Incon, "harness not found: "+job.Func+" in "+pkgPath(job.Pkg))
 		return
 	}
-	cfg := sym.Config{VrtPath: VrtPath, ModulePrefix: ModulePath, Race: job.Race, SpinCut: job.SpinCut, MaxSteps: job.MaxSteps}
+	cfg := sym.Config{BudgetViolation: job.BudgetViolation, VrtPath: VrtPath, ModulePrefix: ModulePath, Race: job.Race, SpinCut: job.SpinCut, MaxSteps: job.MaxSteps}
 	if job.Limit > 0 {
 		cfg.Deadline = start.Add(job.Limit)
 	}
@@ -102,6 +104,23 @@ func RunJob(l *Loaded, job *Job, tweak func(*sym.Config)) (res *JobResult) {
 	}
 	defer e.Close()
 	e.PoolPrecise = job.PoolPrecise
+	if os.Getenv("GOSYM_PROFILE") != "" {
+		e.DecideProfile = map[string]int{}
+		defer func() {
+			type kv struct {
+				k string
+				v int
+			}
+			var l []kv
+			for k, v := range e.DecideProfile {
+				l = append(l, kv{k, v})
+			}
+			sort.Slice(l, func(i, j int) bool { return l[i].v > l[j].v })
+			for i := 0; i < len(l) && i < 25; i++ {
+				fmt.Printf("  decide %6d %s\n", l[i].v, l[i].k)
+			}
+		}()
+	}
 	e.Known = knownFor(job.Prop)
 	if vp := l.Pkgs[VrtPath]; vp != nil {
 		e.SetRedirects(vp)
